@@ -58,6 +58,9 @@ T=[
  ("fx-pick-keys-behind-alias","C01","71e5358","replays/C01/fixed/pick-keys-behind-alias.json","Pick<U, K> with the key union behind an alias (type K = \"a\" | \"c\"; also a single literal behind an alias) was refused with 'Pick should have string or string array as type argument', while Omit<U, K> and Pick<U, K1 | \"zz\"> compiled"),
  ("fx-type-parameter-dynamic-scope","C01","048d16b","replays/C01/fixed/type-parameter-dynamic-scope-simple.json","type parameters were dynamically scoped: a non-generic alias first reached from inside a generic type resolved a same-named global alias to the generic's argument and was cached that way (type T = number; type Inner = { v: T }; type Outer<T> = { inner: Inner; t: T }: Outer<string> made Inner accept { v: \"x\" })"),
  ("fx-type-parameter-dynamic-scope-found","C01","048d16b","replays/C01/fixed/type-parameter-dynamic-scope.json","the same defect as found and shrunk by the generator (a named type called T mentioned through an alias inside a generic definition)"),
+ ("fx-namespace-contains-itself","C04","8210900","replays/C04/fixed/namespace-contains-itself.json","typeof of a namespace import of a file that re-exports itself as a namespace (export * as self from \"./a\" inside a.ts) overflowed the stack"),
+ ("fx-type-as-default-read-as-value","C04","60fb455","replays/C04/fixed/type-as-default-read-as-value.json","export { T as default } of a type, read as a value (typeof D.a), hit unreachable!() in the value walker"),
+ ("fx-value-as-default-read-as-type","C04","60fb455","replays/C04/fixed/value-as-default-read-as-type.json","export { v as default } of a constant, read as a qualified type (D.A), hit unreachable!() in the qualified-type walker"),
 ]
 p='/verif/known_findings.json'
 doc=json.load(open(p))
